@@ -4,6 +4,8 @@ package corr
 //
 //	ccfbrec  public API rfc8888.Recorder (NewRecorder, AddPacket, BuildReport)
 //	         ops: add at=<ns> ssrc=A seq=Q ecn=E | build at=<ns> max=<bytes>
+//	              addrun at=<ns> ssrc=A seq=Q n=N step=<ns> ecn=E   (N in-order packets Q,Q+1,… at at,at+step,…)
+//	              buildrun at=<ns> n=N step=<ns> max=<bytes>        (N reports at at,at+step,…, all printed)
 //	         observable per build: `report ts=<ntp32> n=<blocks> len=<len(Marshal())>` and, sorted by SSRC,
 //	         `b ssrc=A begin=B cnt=N m=<1.ecn.ato | 0, ...>`
 //	ccfbint  rfc8888.SenderInterceptor inside a testing/synctest bubble (real ticker, real time.Now)
@@ -65,7 +67,9 @@ func c08ShowReport(o *Out, rep *rtcp.CCFeedbackReport) {
 // c08Ages are report-time − arrival-time values (ns) on and around the encoding boundaries.
 func c08Age(r *Rng) int64 {
 	const unit = 1953125 // 2/1024 s in ns: every even ATO boundary is a whole number of ns
-	switch r.Intn(14) {
+	switch r.Intn(17) {
+	case 14, 15, 16:
+		return c08HugeAge(r, 58)
 	case 0:
 		return 0
 	case 1:
@@ -91,6 +95,41 @@ func c08Age(r *Rng) int64 {
 	}
 }
 
+// c08HugeAge draws an age (ns) near k*2^e (e up to maxExp, k = 1..7): within ±8.5 s, the width of the
+// unsaturated offset range, so that any arithmetic that wraps at a power of two lands in range.
+func c08HugeAge(r *Rng, maxExp int) int64 {
+	e := uint(r.Range(33, maxExp))
+	if r.Chance(1, 3) {
+		e = uint(r.Pick(53, 54, 54, 55, 56))
+		if int(e) > maxExp {
+			e = uint(maxExp)
+		}
+	}
+	k := int64(1)
+	if e < 61 {
+		k = int64(r.Pick(1, 1, 2, 3, 5, 7))
+	}
+	base := k << e
+	if base < 0 || base>>e != k {
+		base = 1 << e
+	}
+	var j int64
+	switch r.Intn(6) {
+	case 0:
+		j = int64(r.Pick(-1, 0, 1, 976562, 976563))
+	case 1:
+		j = int64(r.Pick(7998046874, 7998046875, 7998046876, 8000000000, -7998046875))
+	case 2:
+		j = -int64(r.U64() % 8500000000)
+	default:
+		j = int64(r.U64() % 8500000000)
+	}
+	if base+j < 0 { // overflow of int64: keep the base
+		return base
+	}
+	return base + j
+}
+
 func c08Max(r *Rng, k int) int {
 	switch r.Intn(8) {
 	case 0:
@@ -108,7 +147,7 @@ func c08Max(r *Rng, k int) int {
 
 var c08RecClasses = []string{
 	"inorder", "loss", "reorder", "dupsame", "duplater", "wrap", "ages", "future", "maxsweep", "headers",
-	"gapskept", "multi", "oddeven", "bigrange", "mixed",
+	"gapskept", "multi", "oddeven", "bigrange", "mixed", "longrun", "hugeages", "idlestream",
 }
 
 type c08Stream struct {
@@ -118,8 +157,255 @@ type c08Stream struct {
 	held []int // held back for reordering
 }
 
+// c08GenLongRun: long loss-free in-order runs (tens of thousands of packets, across one or two 16-bit
+// wraps) written with `addrun`, with periodic small reports, then a disturbance (loss, reordering,
+// duplicate, jump, very old duplicate) and ordinary traffic and reports.
+func c08GenLongRun(r *Rng) []string {
+	var ops []string
+	ssrc := uint32(r.Pick(1, 7, 123456, 4294967295))
+	other := ssrc + 1
+	two := r.Chance(1, 3)
+	seq := r.Intn(65536)
+	if r.Bool() {
+		seq = r.Pick(0, 1, 30000, 32768, 50000, 60000, 65000, 65535)
+	}
+	oseq := r.Intn(65536)
+	clock := int64(1500000000)*1000000000 + int64(r.Intn(1000000000))
+	step := int64(r.Pick(1000000, 5000000, 20000000, 250000))
+	small := func() int { return r.Pick(20, 24, 28, 28, 36, 44, 60, 100) }
+	run := func(total int) {
+		for total > 0 {
+			c := r.Range(150, 700)
+			if c > total {
+				c = total
+			}
+			ops = append(ops, fmt.Sprintf("addrun at=%d ssrc=%d seq=%d n=%d step=%d ecn=0", clock, ssrc, seq&0xFFFF, c, step))
+			clock += int64(c) * step
+			seq += c
+			total -= c
+			if two && r.Chance(1, 4) {
+				ops = append(ops, fmt.Sprintf("add at=%d ssrc=%d seq=%d ecn=0", clock, other, oseq&0xFFFF))
+				oseq++
+			}
+			mx := small()
+			if two {
+				mx += 8
+			}
+			if r.Chance(1, 40) {
+				mx = 1200
+			}
+			ops = append(ops, fmt.Sprintf("build at=%d max=%d", clock+int64(r.Intn(50000000)), mx))
+		}
+	}
+	add := func(n int) {
+		ops = append(ops, fmt.Sprintf("add at=%d ssrc=%d seq=%d ecn=%d", clock, ssrc, n&0xFFFF, r.Intn(4)))
+		clock += step
+	}
+	segs := r.Range(1, 2)
+	for sg := 0; sg < segs; sg++ {
+		total := r.Pick(32760, 32768, 32769, 32770, 33000, 40000, 65530, 65536, 65537, 70000)
+		if r.Chance(1, 4) {
+			total = r.Range(1000, 34000)
+		}
+		if sg > 0 {
+			total = r.Pick(33000, 2000, 500, 34000)
+		}
+		run(total)
+		// disturbance
+		switch r.Intn(6) {
+		case 0: // single loss
+			seq++
+			add(seq)
+			seq++
+		case 1: // burst loss
+			seq += r.Range(2, 30)
+			add(seq)
+			seq++
+		case 2: // swap
+			add(seq + 1)
+			add(seq)
+			seq += 2
+		case 3: // recent duplicate, then a loss
+			add(seq - r.Range(1, 50))
+			seq++
+			add(seq)
+			seq++
+		case 4: // jump ahead
+			seq += r.Pick(100, 1000, 5000)
+			add(seq)
+			seq++
+		default: // very old duplicate (more than half a cycle back), then a loss
+			add(seq - r.Pick(32769, 40000, 65535, 65536))
+			seq++
+			add(seq)
+			seq++
+		}
+		n := r.Range(1, 12)
+		ops = append(ops, fmt.Sprintf("addrun at=%d ssrc=%d seq=%d n=%d step=%d ecn=0", clock, ssrc, seq&0xFFFF, n, step))
+		clock += int64(n) * step
+		seq += n
+		ops = append(ops, fmt.Sprintf("build at=%d max=%d", clock, r.Pick(1200, 1200, 1500, 100, 44)))
+		if r.Bool() {
+			add(seq)
+			seq++
+			ops = append(ops, fmt.Sprintf("build at=%d max=1200", clock))
+		}
+	}
+	return ops
+}
+
+// c08GenHugeAges: packets that are still unacknowledged (behind a never-filled gap, or simply reported
+// late) when reports are built after ages near k*2^e ns, e up to 63 and beyond the range of
+// time.Duration; the arrivals may lie before 1970, the report times stay in NTP era 0.
+func c08GenHugeAges(r *Rng) []string {
+	var ops []string
+	const era = int64(2085978495) * 1000000000
+	k := r.Range(1, 2)
+	age := c08HugeAge(r, 63)
+	ref := int64(r.U64() % uint64(era-20000000000))
+	if r.Chance(1, 6) { // ages beyond int64: Sub saturates
+		age = int64(1<<62) + int64(r.U64()%(1<<61))
+		ref = era/2 + int64(r.U64()%uint64(era/2-20000000000))
+	}
+	clock := ref - age // wraps only if ref-age < -2^63
+	if age > 0 && clock > ref {
+		clock = -1 << 63
+	}
+	seqs := make([]int, k)
+	for i := range seqs {
+		seqs[i] = r.Intn(65536)
+	}
+	// arrivals within a few hundred ms after `clock`, with a gap that is never filled
+	n := r.Range(2, 8)
+	for p := 0; p < n; p++ {
+		i := r.Intn(k)
+		if p == 1 || r.Chance(1, 6) {
+			seqs[i]++
+		}
+		ops = append(ops, fmt.Sprintf("add at=%d ssrc=%d seq=%d ecn=%d", clock, 10+i, seqs[i]&0xFFFF, r.Intn(4)))
+		seqs[i]++
+		if clock < (1<<63-1)-50000000 {
+			clock += int64(r.Intn(50000000))
+		}
+	}
+	at := ref
+	for b := r.Range(2, 6); b > 0; b-- {
+		switch r.Intn(4) {
+		case 0:
+			at += int64(r.Intn(3000000000))
+		case 1:
+			at = ref + int64(r.Pick(0, 1, 976563, 7998046875, 8000000000))
+		default:
+			at += int64(r.Pick(1, 1000000, 100000000, 999999999))
+		}
+		if at < 0 || at >= era {
+			at = ref
+		}
+		mx := 1200
+		if r.Chance(1, 4) {
+			mx = c08Max(r, k)
+		}
+		ops = append(ops, fmt.Sprintf("build at=%d max=%d", at, mx))
+		if r.Chance(1, 3) { // a fresh packet at the report time (age 0 next to the huge ones)
+			i := r.Intn(k)
+			ops = append(ops, fmt.Sprintf("add at=%d ssrc=%d seq=%d ecn=0", at, 10+i, seqs[i]&0xFFFF))
+			seqs[i]++
+		}
+	}
+	return ops
+}
+
+// c08GenIdleStream: one stream falls silent (everything acknowledged, or with a gap still pending)
+// for hundreds of consecutive reports (`buildrun`) while others keep flowing, then resumes with a
+// duplicate of an old acknowledged number, a gap, or the next number.
+func c08GenIdleStream(r *Rng) []string {
+	var ops []string
+	k := r.Range(2, 3)
+	ssrc := []int{r.Pick(1, 10, 4000000000), 0, 0}
+	ssrc[1], ssrc[2] = ssrc[0]+1, ssrc[0]+r.Pick(2, 5)
+	seq := make([]int, k)
+	for i := range seq {
+		seq[i] = r.Intn(65536)
+		if r.Chance(1, 4) {
+			seq[i] = 65536 - r.Range(1, 10)
+		}
+	}
+	clock := int64(1500000000)*1000000000 + int64(r.Intn(1000000000))
+	const step = 100000000
+	for i := 0; i < k; i++ {
+		n := r.Range(3, 15)
+		if i == 0 && r.Chance(1, 4) { // a gap that is never filled: the stream stays pending while silent
+			ops = append(ops, fmt.Sprintf("add at=%d ssrc=%d seq=%d ecn=0", clock, ssrc[0], seq[0]&0xFFFF))
+			seq[0] += 2
+		}
+		ops = append(ops, fmt.Sprintf("addrun at=%d ssrc=%d seq=%d n=%d step=1000000 ecn=0", clock, ssrc[i], seq[i]&0xFFFF, n))
+		seq[i] += n
+		clock += int64(n) * 1000000
+	}
+	ops = append(ops, fmt.Sprintf("build at=%d max=1200", clock))
+	budget := 800 // consecutive builds per case (model speed)
+	for rounds := r.Range(1, 3); rounds > 0 && budget > 0; rounds-- {
+		for i := 1; i < k; i++ {
+			if r.Bool() {
+				n := r.Range(1, 3)
+				ops = append(ops, fmt.Sprintf("addrun at=%d ssrc=%d seq=%d n=%d step=1000000 ecn=0", clock, ssrc[i], seq[i]&0xFFFF, n))
+				seq[i] += n
+			}
+		}
+		n := r.Pick(20, 150, 299, 300, 301, 302, 310, 350, 600, 1000)
+		if n > budget {
+			n = budget
+		}
+		budget -= n
+		mx := 1200
+		if r.Chance(1, 5) {
+			mx = c08Max(r, k)
+		}
+		ops = append(ops, fmt.Sprintf("buildrun at=%d n=%d step=%d max=%d", clock+step, n, step, mx))
+		clock += int64(n) * step
+		if r.Chance(1, 5) { // the silent stream shows a sign of life: next number, or an old duplicate
+			if r.Bool() {
+				ops = append(ops, fmt.Sprintf("add at=%d ssrc=%d seq=%d ecn=0", clock, ssrc[0], seq[0]&0xFFFF))
+				seq[0]++
+			} else {
+				ops = append(ops, fmt.Sprintf("add at=%d ssrc=%d seq=%d ecn=0", clock, ssrc[0], (seq[0]-r.Range(1, 5))&0xFFFF))
+			}
+		}
+	}
+	// resumption
+	for i := r.Range(1, 3); i > 0; i-- {
+		switch r.Intn(4) {
+		case 0, 1: // late duplicate of an acknowledged number, then the next new one
+			ops = append(ops, fmt.Sprintf("add at=%d ssrc=%d seq=%d ecn=0", clock, ssrc[0], (seq[0]-r.Range(1, 9))&0xFFFF))
+			ops = append(ops, fmt.Sprintf("add at=%d ssrc=%d seq=%d ecn=0", clock+1000000, ssrc[0], seq[0]&0xFFFF))
+			seq[0]++
+		case 2: // a gap
+			seq[0] += r.Range(1, 20)
+			ops = append(ops, fmt.Sprintf("add at=%d ssrc=%d seq=%d ecn=0", clock, ssrc[0], seq[0]&0xFFFF))
+			seq[0]++
+		default:
+			ops = append(ops, fmt.Sprintf("add at=%d ssrc=%d seq=%d ecn=0", clock, ssrc[0], seq[0]&0xFFFF))
+			seq[0]++
+		}
+		clock += step
+		ops = append(ops, fmt.Sprintf("build at=%d max=1200", clock))
+	}
+	return ops
+}
+
 func c08GenRec(r *Rng, tier string, idx int) Case {
 	cl := c08RecClasses[idx%len(c08RecClasses)]
+	if tier == "thorough" && (cl == "longrun" || cl == "idlestream") && (idx/len(c08RecClasses))%4 != 0 {
+		cl = "mixed" // the long-history classes cost ~50 ms each in the model: every 4th round in the thorough tier
+	}
+	switch cl {
+	case "longrun":
+		return Case{Class: cl, Ops: c08GenLongRun(r)}
+	case "hugeages":
+		return Case{Class: cl, Ops: c08GenHugeAges(r)}
+	case "idlestream":
+		return Case{Class: cl, Ops: c08GenIdleStream(r)}
+	}
 	k := 1
 	switch cl {
 	case "multi", "maxsweep", "headers", "oddeven", "mixed":
@@ -296,12 +582,23 @@ func c08RunRec(t *testing.T, ops []string, o *Out) {
 		var ssrc uint32
 		var seq uint16
 		var ecn uint8
-		var mx int
+		var mx, n int
+		var step int64
 		switch {
 		case scan(op, "add at=%d ssrc=%d seq=%d ecn=%d", &at, &ssrc, &seq, &ecn) && len(strings.Fields(op)) == 5:
 			rec.AddPacket(time.Unix(0, at), ssrc, seq, ecn)
 		case scan(op, "build at=%d max=%d", &at, &mx) && len(strings.Fields(op)) == 3:
 			c08ShowReport(o, rec.BuildReport(time.Unix(0, at), mx))
+		case scan(op, "addrun at=%d ssrc=%d seq=%d n=%d step=%d ecn=%d", &at, &ssrc, &seq, &n, &step, &ecn) &&
+			len(strings.Fields(op)) == 7 && n >= 0 && n <= 200000:
+			for i := 0; i < n; i++ {
+				rec.AddPacket(time.Unix(0, at+int64(i)*step), ssrc, seq+uint16(i), ecn)
+			}
+		case scan(op, "buildrun at=%d n=%d step=%d max=%d", &at, &n, &step, &mx) &&
+			len(strings.Fields(op)) == 5 && n >= 0 && n <= 5000:
+			for i := 0; i < n; i++ {
+				c08ShowReport(o, rec.BuildReport(time.Unix(0, at+int64(i)*step), mx))
+			}
 		default:
 			o.P("bad-op")
 		}
@@ -310,6 +607,7 @@ func c08RunRec(t *testing.T, ops []string, o *Out) {
 
 var c08IntClasses = []string{
 	"steady", "loss", "multi", "latewriter", "readafterclose", "closenowriter", "idle", "oldgap", "dup", "wrap",
+	"longidle",
 }
 
 func c08GenInt(r *Rng, tier string, idx int) Case {
@@ -361,6 +659,52 @@ func c08GenInt(r *Rng, tier string, idx int) Case {
 	}
 	if cl == "idle" {
 		ops = append(ops, fmt.Sprintf("adv ms=%d", r.Range(0, 1000)), "close")
+		return Case{Class: cl, Ops: ops}
+	}
+	if cl == "longidle" {
+		// a stream is fully acknowledged, stays silent for hundreds of report intervals while another may
+		// keep flowing, then resumes with a duplicate of an old number, a gap, or the next number
+		interval = r.Pick(100, 50, 20)
+		ops[0] = fmt.Sprintf("cfg interval=%d", interval)
+		for j := r.Range(2, 8); j > 0; j-- {
+			i := r.Intn(k)
+			rtp(i)
+			next[i]++
+			if r.Bool() {
+				ops = append(ops, fmt.Sprintf("adv ms=%d", r.Range(1, interval)))
+			}
+		}
+		ops = append(ops, fmt.Sprintf("adv ms=%d", 2*interval))
+		left := 700
+		for rounds := r.Range(1, 3); rounds > 0 && left > 0; rounds-- {
+			n := r.Pick(100, 299, 300, 301, 302, 320, 400)
+			if n > left {
+				n = left
+			}
+			left -= n
+			ops = append(ops, fmt.Sprintf("adv ms=%d", n*interval))
+			if k > 1 && r.Bool() {
+				rtp(1)
+				next[1]++
+			}
+		}
+		for j := r.Range(1, 3); j > 0; j-- {
+			switch r.Intn(3) {
+			case 0:
+				ops = append(ops, fmt.Sprintf("rtp ssrc=%d seq=%d", ssrcs[0], (next[0]-r.Range(1, 6))&0xFFFF))
+				rtp(0)
+				next[0]++
+			case 1:
+				next[0] += r.Range(1, 9)
+				rtp(0)
+				next[0]++
+			default:
+				rtp(0)
+				next[0]++
+			}
+			ops = append(ops, fmt.Sprintf("adv ms=%d", interval))
+		}
+		ops = append(ops, "close")
 		return Case{Class: cl, Ops: ops}
 	}
 	steps := r.Range(3, 25)
